@@ -29,10 +29,14 @@ pub(crate) fn update_backtracks<A>(dfa: &mut DFA<StateIdx, A>) {
         // Did we visit the state, with the right backtrack state?
         match visited.entry(state) {
             Entry::Occupied(mut entry) => {
-                if *entry.get() == backtrack {
+                // The analysis must be monotone: once a state is known to be reachable through an
+                // accepting state it has to backtrack on failure, no matter how else it can be
+                // reached. Only revisit a state when its flag goes from `false` to `true`;
+                // otherwise flags flip back and forth and the loop may never terminate.
+                if *entry.get() || !backtrack {
                     continue;
                 }
-                entry.insert(backtrack);
+                entry.insert(true);
             }
             Entry::Vacant(entry) => {
                 entry.insert(backtrack);
